@@ -31,7 +31,8 @@ ALPHABET = (-2, 0, 1, 3)
 SYMMETRIC = [(-1, 1), (-1, 0, 1), (-1, 0, 0, 1), (-1, -1, 1, 1)]
 SYMMETRIC_MAPS = SYMMETRIC + [(-2, -1, 0, 1, 2), (-1, -1, 0, 1, 1)]
 OP_SCALE = 0.5                     # coupling operator = 0.5 * diag(ev) (keeps the decoherence moderate)
-MAP_SCALES = (1.0, 0.37)
+EXTREME_SCALES = (2.0e7, 1.0e-4)
+MAP_SCALES = (1.0, 0.37) + EXTREME_SCALES
 MIN_INFLUENCE = 0.05
 MIN_MOVE = 0.01
 BASES = {"diag": "id", "nondiag": "gen1"}
@@ -91,6 +92,20 @@ def map_case(args):
             out["cls"] = f"{base}|{name}-map-wrong-shape"
             out["what"] = f"ev={ev} scale={scale}: {name} map has shape {m.shape} dtype {m.dtype}"
             return out
+        if scale in EXTREME_SCALES:
+            # operators in very large / small units: rounding of the computed eigenvalues may split a class (that only
+            # costs time); the map must never MERGE entries whose sums / differences differ (that changes results)
+            lib_classes = {}
+            for idx, lab in enumerate(m.tolist()):
+                lib_classes.setdefault(lab, []).append(idx)
+            vals = pairs_n if name == "north" else pairs_w
+            merged = [c for c in lib_classes.values() if len(set(vals[i] for i in c)) > 1]
+            if merged:
+                out["cls"] = f"{base}|{name}-map-merges-distinct-values(extreme-scale)"
+                out["what"] = (f"ev={ev} scale={scale}: {name} map {m.tolist()} puts entries with different "
+                               f"{'(difference, sum)' if name == 'north' else 'difference'} values {sorted(set(vals[i] for i in merged[0]))} into one class")
+                return out
+            continue
         if partition_of_map(m) != want:
             out["cls"] = f"{base}|{name}-map-is-not-the-brute-force-partition"
             out["what"] = (f"ev={ev} scale={scale}: {name} map {m.tolist()} has {len(partition_of_map(m))} classes, "
@@ -100,6 +115,8 @@ def map_case(args):
             out["cls"] = f"{base}|{name}-map-labels-not-contiguous"
             out["what"] = f"ev={ev} scale={scale}: {name} map labels {sorted(set(m.tolist()))}"
             return out
+    if scale in EXTREME_SCALES:
+        return out
     out["n_north"], out["n_west"] = int(north.max()) + 1, int(west.max()) + 1
     out["pattern"] = (tuple(int(x) for x in north), tuple(int(x) for x in west))
     return out
